@@ -264,6 +264,9 @@ def _fixed_den_cases():
         # operand-level $not consumes exactly one operand
         ({"pattern": [{"mov": [{"$not": ["rax"]}, "rbx"]}]}, R(("mov", ["%rbx", "%rax"]), ("mov", ["%rcx", "%rbx"]))),
         ({"pattern": [{"mov": ["rsp", {"$not": ["eax"]}, "rbp"]}]}, R(("mov", ["%rsp", "%rbp"]))),
+        # `times` written inside the body of a $deref operand
+        ({"pattern": [{"lea": [{"$deref": {"main_reg": "rax", "times": 1}}, "rbx"]}]}, R(("lea", ["[%rax]", "%rbx"]))),
+        ({"pattern": [{"lea": [{"$deref": {"main_reg": "rax", "times": {"min": 0, "max": 1}}}, "rbx"]}]}, R(("lea", ["[%rax]", "%rbx"]), ("lea", ["%rbx"]))),
     ]
 
 
@@ -493,6 +496,11 @@ def resolver_sweep() -> Tuple[Dict[str, Any], List[Dict[str, Any]]]:
                 # the same call with its arguments written as a YAML list of one-entry mappings under the macro name
                 cases.append(({"name": "@m", "args": list(formals), "pattern": copy.deepcopy(body)},
                               {"@m": [{k_: v_} for k_, v_ in orders[0]]}))
+    # formal parameters whose NAME is also a key of the macro body ($deref field names, `times`): only the values are replaced
+    for fname, body_, val in (("main_reg", [{"mov": [{"$deref": {"main_reg": "main_reg"}}, "rbx"]}], "rax"),
+                              ("constant_offset", [{"mov": [{"$deref": {"main_reg": "rax", "constant_offset": "constant_offset"}}]}], "0x8"),
+                              ("main_reg", [{"$or": [{"mov": [{"$deref": {"main_reg": "main_reg"}}]}, {"lea": ["main_reg", "rbx"]}]}], "%rcx")):
+        cases.append(({"name": "@m", "args": [fname], "pattern": copy.deepcopy(body_)}, {"@m": {fname: val}}))
     res = replay.run_real({"kind": "resolver", "cases": cases}, timeout=1800)["results"]
     viol = []
     for (macro, call), r in zip(cases, res):
